@@ -37,6 +37,7 @@ class Registers:
         self.last_row = None
         self.last_zone = 0
         self.matrix = None
+        self.matrix_name = None
         self.name = None
         self.operand = Operand.NULL
         self.pc = 0
@@ -360,6 +361,8 @@ class Machine:
 
     def _end(self) -> None:
         if self.current_inst.param0 is Operand.MATRIX:
+            # A command inside the block may have named another light.
+            self._reg.name = self._reg.matrix_name
             self._reg.pc += 1
         else:
             self._return()
@@ -401,6 +404,7 @@ class Machine:
     @inject(LightSet)
     def _matrix(self, light_set) -> None:
         name = self._reg.name
+        self._reg.matrix_name = name
         light = light_set.get_light(name)
         if light is None:
             Machine._report_missing(name)
